@@ -212,10 +212,10 @@ def hfin (rep : Bool) (pre h seed : HV) : HV := if rep then hatom "fin" (.set h)
 def strMemXor (off : Int) : List Int → HV
   | [] => []
   | c :: r => if c < 0 then strMemXor (off + 1) r
-              else hxor (hatom "i32" (.num c) (hatom "int" (.num off) [])) (strMemXor (off + 1) r)
+              else hxor (hatom "charT" (.set [.num off, .num c]) []) (strMemXor (off + 1) r)
 def bytesMemXor (off : Int) : List Int → HV
   | [] => []
-  | b :: r => hxor (hatom "u8" (.num b) (hatom "int" (.num off) [])) (bytesMemXor (off + 1) r)
+  | b :: r => hxor (hatom "byteT" (.set [.num off, .num b]) []) (bytesMemXor (off + 1) r)
 
 mutual
 /-- `v.Hash(seed)` -/
@@ -223,18 +223,19 @@ def hashG (rep : Bool) : Rep → HV → HV
   | .num n, s => hatom "f64" (.num n) s
   -- frozen Map.Hash: C(seed) ^ XOR of hash.Any(value, hash.Any(key, seed)); repaired: finished
   | .gtuple as, s => hfin rep [] (hxor (hatom "mapC" (.set []) s) (xorAttrs rep as s)) s
-  | .charT ix ch, s => hatom "i32" (.num ch) (hatom "int" (.num ix) s)
-  | .byteT ix b, s => hatom "u8" (.num b) (hatom "int" (.num ix) s)
+  -- hash.Int32(char, hash.Int(at, seed)) / hash.Uint8(byte, hash.Int(at, seed)): one injective atom each
+  | .charT ix ch, s => hatom "charT" (.set [.num ix, .num ch]) s
+  | .byteT ix b, s => hatom "byteT" (.set [.num ix, .num b]) s
   | .itemT ix x, s => hashG rep x (hatom "int" (.num ix) s)
   | .entryT k v, s => hashG rep v (hashG rep k s)
   | .empty, s => hfin rep s [] s
   | .true_, s => hfin rep s (hfin rep [] (hatom "mapC" (.set []) []) []) s
   | .generic xs, s => hfin rep s (xorList rep xs) s
   | .str r off _, s =>
-    if rep then hatom "runes" (numsV r) (hatom "int" (.num off) s)
+    if rep then hatom "runes" (numsV (off :: r)) s
     else hatom "str" (numsV (r.map (fun c => if c < 0 then 0xFFFD else c))) s
   | .bytes b off, s =>
-    if rep then hatom "str" (numsV b) (hatom "int" (.num off) s)
+    if rep then hatom "bstr" (numsV (off :: b)) s
     else hatom "str" (numsV b) s
   | .array vs off _, s => hfin rep s (xorOpts rep off vs s) s
   | .dict m, s => hfin rep s (xorDict rep m s) s
